@@ -106,13 +106,13 @@ def handle1 (args : List String) : String :=
   match args with
   | "clipclip" :: a =>
     let p : Order.ClipClip Int := { a := parseBound (getS a "a"), b := parseBound (getS a "b"), c := parseBound (getS a "c"), d := parseBound (getS a "d"), dtype1 := getS a "dt1" != "0", dtype2 := getS a "dt2" != "0" }
-    showClip p.run (!p.d2 && !getBool a "old")
+    showClip p.run (!getBool a "old")
   | "cliprelu" :: a =>
     let p : Order.ReluClip Int := { a := parseBound (getS a "a"), b := parseBound (getS a "b"), dtype1 := getS a "dt1" != "0" }
     showClip (p.run 0) (!getBool a "old")
   | "reluclip" :: a =>
     let p : Order.ReluClip Int := { a := parseBound (getS a "a"), b := parseBound (getS a "b"), dtype1 := getS a "dt1" != "0" }
-    showClip (p.run 0) (!p.d1 0 && !getBool a "old")
+    showClip (p.runReluClip 0) (!getBool a "old")
   | "relurelu" :: _ => "fire hyp=1"
   | "minmax" :: a =>
     let p : Order.MinMax Int := { kind := parseKind (getS a "kind"), first := parseMMList (getS a "first"), second := parseMMList (getS a "second") }
@@ -199,17 +199,15 @@ def handle1 (args : List String) : String :=
       s!"to={getNat a "t3"} "
   | "gemm" :: a =>
     let ro (k : String) : Option Nat := (getOptInt a k).map Int.toNat
-    let hyp := match getOptInts a "c" with
-      | some c => Linalg.cFitsGemm (getNat a "m") (getNat a "n") (c.map Int.toNat)
-      | none => false
-    fireIf (Linalg.matmulAddCheck (ro "ra") (ro "rb")) hyp s!"transA={getS a "ta"} transB={getS a "tb"} "
+    let cs : Option (List Nat) := (getOptInts a "c").map (·.map Int.toNat)
+    fireIf (Linalg.matmulAddCheck (ro "ra") (ro "rb") (getNat a "m") (getNat a "n") cs) true s!"transA={getS a "ta"} transB={getS a "tb"} "
   | "padconv" :: a =>
     let cv : Linalg.OptConst Int := match getS a "cv" with
       | "-" => .absent | "n" => .dynamic | s => ((s.toInt?).map .const).getD .dynamic
     let p : Linalg.PadConv := { xRank := (getOptInt a "rank").map Int.toNat, mode := (kv a "mode").bind (fun m => if m == "-" then none else some m), pads := parseOptConstInts (getS a "pads"), constantValue := cv, cvIsZero := getS a "cvz" != "0", axes := parseOptConstInts (getS a "axes"), autoPad := getS a "autopad", convPads := getOptInts a "cpads", nonzeroZeroPoint := getBool a "zp" }
     (match Linalg.padConvRun p with
      | .nofire => "nofire" | .raises => "raise"
-     | .fire pads => s!"fire pads={showInts pads} hyp={b2s (!p.nonzeroZeroPoint)}")
+     | .fire pads => s!"fire pads={showInts pads} hyp=1")
   | "normpad" :: a =>
     let nats (k : String) : List Nat := ((getOptInts a k).getD []).map Int.toNat
     let p : Linalg.NormPad := { autoPad := (kv a "ap").bind (fun m => if m == "-" then none else some m), inShape := getShape a "in", outShape := getShape a "out", kernel := nats "k", strides := nats "s", padsAttr := getOptInts a "pads" }
